@@ -211,7 +211,11 @@ def main(ck):
                 mm['got'][:2], [(c20.ev_name(e), c20.ev_fullkey(e)) for e in c20._log(mm['got'])][:14]), w)
         for c in res.crashes:
             f = byname[c['case']['f']]
-            ck.discrepancy('cmp:crash:%s:%s' % (f['family'], f['cls']), 'crash/hang %s: %s on %s\n%s' % (
+            ckey = 'cmp:crash:%s:%s' % (f['family'], f['cls'])
+            if f['family'] == 'chain-typed' and f['ops'][0] in ('in', 'not in') and len(f['ops']) >= 2 and 'C' in f['cls'].rsplit(':', 1)[-1]:
+                # `a in b == cl`: the C operand of the link after a membership test is cast to PyObject* instead of converted
+                ckey = 'cmp:in-cascade-c-operand-cast-to-pointer:crash'
+            ck.discrepancy(ckey, 'crash/hang %s: %s on %s\n%s' % (
                 c['kind'], (f.get('pyx') or f['src']).strip(), c['case']['a'], c['stderr'][-300:]),
                 {'ext': '.pyx' if typed else '.py', 'case': c['case'], 'stderr': c['stderr'],
                  'module_source': HEADER + (cmpgen.SWITCH_PRELUDE_PYX if typed else '') + (f.get('pyx') or f['src']), 'setup': SETUP})
